@@ -80,6 +80,12 @@ CHECKS = {
         text="The oracle is the specification: Peg.tla defines Sem for ordered choice, sequences, optional, star/plus, gathers, groups, positive/negative lookahead, cut, forced tokens, memo flags and direct/indirect left recursion, and TLC evaluates it on 36 hand-picked grammars (one per feature pair) + seeded random well-formed grammars (1-3 rules) x every token string up to length 4 (quick) / 5 (thorough) over a 5-token alphabet (NAME, NUMBER, two operators, a keyword). Each grammar is printed in .gram notation, read by the real metagrammar parser, generated by XonshParserGenerator (peg_parser runtime) and by PythonParserGenerator (pegen runtime), and executed through the real tokenizers; result, end position and action value must equal Sem. A history variant generates 24 grammars in one interpreter.",
         note="Family bounds: wrappers apply to a token, rule or group (no wrapper-of-wrapper), forced only of punctuation tokens (the notation's own limits). Leaders computed independently (harness/pegfam.py). One known finding (single-item group / rule action dropped).",
         ref="5/C17"),
+    "C18": dict(
+        technique="TLC enumeration of size-parameterised input families (Work.tla) -> work counters of the real parser (counting Tokenizer subclass); recorded series validated by TLC against the linear-growth law (WorkLaw.tla)",
+        level="model_checking",
+        text="Work.tla builds families from 30 nesting constructors (alone; pairwise alternating in thorough; as expressions, as case patterns and in del/assignment/for/with-as/comprehension target positions) and 30 chains, each valid and with 5 breakers (unclosed, wrong closer, doubled token, missing operand, trailing garbage), at doubling sizes; TLC enumerates them. Every program is parsed with a counting Tokenizer subclass passed to the public constructor; TLC validates the (size, tokens, getnext+peek+reset) series of each family against WorkLaw.tla: a doubling costs at most 2.6x + 4000 calls and no point exceeds 2500 calls per token. A series cut by the work budget counts as unbounded.",
+        note="Empirical growth law over the composed family set, constants fixed from the baseline with head-room; 'no input family' is approximated, not proved. Two known findings (invalid input around nested brackets; nested case patterns).",
+        ref="5/C18"),
     "C14": dict(
         technique="TLC enumeration of statement sequences from StmtSeq.tla -> composition law checked on the real parser; tree pairs (whole vs shifted parts) trace-validated by TLC (AstEq.tla)",
         text="StmtSeq.tla lists 55 complete statement forms (Python simple/compound, multi-line tokens, comment/blank lines, every xonsh statement form incl. empty macros and path-literal concatenations); TLC enumerates every sequence of up to 2 (all kinds) / 3 (xonsh-heavy subset) kinds in quick, 3 / 4 in thorough; the body of the concatenation must equal the bodies of the parts with shifted line numbers, positions included.",
